@@ -42,6 +42,10 @@ claimed = {
    text="Seeded exploration: generated concurrent programs (jobs, pipelines, |&, process/command substitutions, functions in jobs) with parent and children touching the same names, Runner.Subshell copies run concurrently with their parent, under controlled interleavings with the Go race detector on and the scheduler's hand-offs hidden from it; plus wait gN status oracle with simulated job durations.",
    note="A race is found only if both accesses execute in the run; reports are per-process-once so attribution is to the first run showing it. Simulated pipes order writer->reader like real pipes.",
    tech="deterministic simulation: controller-owned interleaving under -race (invisible hand-off), fault injection to reach error paths; direct oracle for wait statuses", ref="DESIGN.md §3.2, §5 C32"),
+ "C35": dict(cat="fault_enumeration", eng="worldC",
+   text="Crash-point enumeration on the real shfmt binary: for each generated scenario every file-system system call of the fault-free `shfmt -w` run (found with strace) is used as a kill point (SIGKILL before the call executes, the scenario restored each time); after each kill every target must hold exactly the original or exactly the formatted bytes with unchanged permission bits, symlinks/FIFOs untouched; completed runs must leave no temporary file. Complete over the kill points of a scenario; scenarios (sizes to 200 KiB, 11 modes x 4 umasks, TMPDIR on the same/another file system, symlink/FIFO/directory targets, flag sets) are sampled.",
+   note="Kills, not power cuts: page-cache durability is outside the property. The shfmt under test is built with the verif tag, whose only effect is runtime.LockOSThread in init so that strace's per-thread call counters see one sequence. Trusts strace's fault injection (call not executed, SIGKILL delivered).",
+   tech="deterministic fault injection: strace syscall-level kill injection, exhaustive over the syscall boundaries of each run, real binary and kernel file system", ref="DESIGN.md §3.3, §5 C35"),
 }
 
 pending = {  # id -> reason while a check is under construction
@@ -107,8 +111,8 @@ m = {
  "version": 1,
  "setup_cmd": "./check build",
  "hooks": {
-   "guard": "go build tag `verif` (files interp/verif_on.go, interp/stdin_verif.go; no-op stubs in interp/verif_off.go without the tag)",
-   "enable": "go1.26.8 test -c -race -tags verif ./worldb (harness module /verif/sim with replace mvdan.cc/sh/v3 => /repo); worlds A and C need no hook",
+   "guard": "go build tag `verif` (files interp/verif_on.go, interp/stdin_verif.go, cmd/shfmt/verif_thread.go; no-op stubs in interp/verif_off.go without the tag)",
+   "enable": "go1.26.8 test -c -race -tags verif ./worldb (harness module /verif/sim with replace mvdan.cc/sh/v3 => /repo); world A needs no hook; world C builds shfmt with -tags verif (main goroutine pinned to the main thread)",
    "baseline_off_cmd": baseline,
    "source_commits": hook_commits(),
    "add_only": False,
